@@ -50,9 +50,30 @@ def _collect(R, tp, matched, results, rej):
                     {"kind": "go", "lines": [{"k": "go", "text": x["text"], "stm": x["stm"], "go": x["go"]} for x in rj["segment"] if x.get("ev") == "go"][-50:]})
 
 
+def apalache_all_naturals(R):
+    """the transcribed allocation formula meets the C12 relation for ALL naturals (symbolic, Apalache); the formula
+    from before the repair must be refuted (guards against a vacuous encoding)"""
+    import subprocess
+    out = os.path.join(vlib.BUILD, "apalache")
+    res = {}
+    for inv, want_ok in (("Fits", True), ("OldFits", False)):
+        try:
+            r = subprocess.run(["apalache-mc", "check", "--length=0", "--inv=" + inv, "--out-dir=" + out, "TimeCtlAll.tla"],
+                               cwd=os.path.join(vlib.SPEC, "proofs"), stdout=subprocess.PIPE, stderr=subprocess.STDOUT, text=True, timeout=600)
+        except (subprocess.TimeoutExpired, FileNotFoundError) as e:
+            raise ToolError("apalache-mc failed: %s" % e)
+        ok = "EXITCODE: OK" in r.stdout
+        if ok != want_ok:
+            raise ToolError("Apalache: %s is %s for all naturals, expected %s: %s" % (inv, ok, want_ok, r.stdout[-600:]))
+        res[inv] = "holds for all naturals" if ok else "refuted (counterexample found)"
+    shutil.rmtree(out, ignore_errors=True)
+    R.coverage["formula_all_naturals_apalache"] = res
+
+
 def run(prop, tier, seed):
     T = TIERS[tier]
     R = vlib.Result(prop, tier, seed)
+    apalache_all_naturals(R)
     exe = vlib.build_harness()
     work = vlib.workdir("time")
     try:
